@@ -22,8 +22,10 @@
 //	    all-modules iterator).  Classes:
 //	      full-reset       assigned nil / an empty literal / make(...) / clear(x.f) / every key
 //	                       deleted, unconditionally; for a field of AST nodes: assigned a zero
-//	                       value for every element of a slice field of every module of
-//	                       ms.Modules and ms.SubModules, unconditionally
+//	                       value for every element of a slice field of every module of EVERY
+//	                       MODULE CONTAINER (the registry fields of the root whose type mentions
+//	                       *Module: Modules, SubModules, unrevisioned - a module that a later
+//	                       revision displaced is in unrevisioned only), unconditionally
 //	      generation       the field is a memo with a generation stamp: the counter is bumped
 //	                       unconditionally in the prologue, and in every function that writes
 //	                       the memo the stamp is written from the counter, and every read of the
@@ -78,14 +80,18 @@ import (
 var allowJSON []byte
 
 type AllowField struct {
-	Field   string   `json:"field"` // Struct.field
-	Class   string   `json:"class"` // registry | config | sync | derived | call-scoped
-	Reason  string   `json:"reason"`
-	Model   string   `json:"model,omitempty"`    // the component of the session model it corresponds to
-	ResetIn string   `json:"reset_in,omitempty"` // function whose first mention of the field must be its full reset
-	Stamp   string   `json:"stamp,omitempty"`    // generation memo: Struct.field of the stamp
-	Counter string   `json:"counter,omitempty"`  // generation memo: Struct.field of the counter
-	Writers []string `json:"writers,omitempty"`  // construction, call-scoped: the only functions that may write it; derived: the only functions that may STORE into it (a write that is not a plain reset)
+	Field   string `json:"field"` // Struct.field
+	Class   string `json:"class"` // registry | config | sync | derived | call-scoped
+	Reason  string `json:"reason"`
+	Model   string `json:"model,omitempty"`    // the component of the session model it corresponds to
+	ResetIn string `json:"reset_in,omitempty"` // function whose first mention of the field must be its full reset
+	Stamp   string `json:"stamp,omitempty"`    // generation memo: Struct.field of the stamp
+	Counter string `json:"counter,omitempty"`  // generation memo: Struct.field of the counter
+	// derived AST fields: the module containers an element-wise reset must range over when not all
+	// of them (with the reason why the others need not be reached)
+	Containers       []string `json:"containers,omitempty"`
+	ContainersReason string   `json:"containers_reason,omitempty"`
+	Writers          []string `json:"writers,omitempty"` // construction, call-scoped: the only functions that may write it; derived: the only functions that may STORE into it (a write that is not a plain reset)
 }
 
 // StructDefault classifies every field of a struct that has no entry of its own.
@@ -732,6 +738,44 @@ func (w *world) strayStores(listed []*fieldFact) {
 			}
 			if !ok {
 				f.Stray = append(f.Stray, fn)
+			}
+		}
+		// derived state may be written - also merely reset - only on paths that start at Process
+		// or at a pinned storing function: a caller of a writing function that is reached from
+		// another entry point (the load path: Parse -> add -> ClearEntryCache) disposes of derived
+		// state outside a run, which a refused load does not undo
+		pinned := map[string]bool{w.cfg.Process: true}
+		for _, p := range a.Writers {
+			pinned[p] = true
+		}
+		if a.ResetIn != "" {
+			pinned[a.ResetIn] = true
+		}
+		var acceptable func(c string, seen map[string]bool) bool
+		acceptable = func(c string, seen map[string]bool) bool {
+			if pinned[c] || seen[c] {
+				return true
+			}
+			seen[c] = true
+			fd := w.decls[c]
+			if fd == nil || fd.Name.IsExported() || len(callers[c]) == 0 {
+				return false // another entry point
+			}
+			for cc := range callers[c] {
+				if !acceptable(cc, seen) {
+					return false
+				}
+			}
+			return true
+		}
+		for _, fn := range sortedKeys(f.Writers) {
+			if pinned[fn] {
+				continue
+			}
+			for _, c := range sortedKeys(callers[fn]) {
+				if !acceptable(c, map[string]bool{}) {
+					f.Stray = append(f.Stray, c+" -> "+fn)
+				}
 			}
 		}
 	}
